@@ -143,6 +143,13 @@ class BasicAdapter(object):
     def access(self, n, rec, kind):
         return self._run((b'GET#%d,%d' if kind == 'G' else b'PUT#%d,%d') % (n, rec))
 
+    def access_next(self, n, rec, kind):
+        """Record `rec` reached without a record number: position on rec-1, then GET#n / PUT#n."""
+        res = self._run(b'GET#%d,%d' % (n, rec - 1))
+        if res is not None:
+            raise CheckError('positioning GET#%d,%d failed with %r' % (n, rec - 1, res))
+        return self._run(b'GET#%d' % n if kind == 'g' else b'PUT#%d' % n)
+
     def locksets(self):
         out = {}
         for n in self.numbers:
@@ -256,6 +263,8 @@ def _apply(real, op):
         return real.unlock(op[1], (op[2], op[3]))
     if kind in 'GP':
         return real.access(op[1], op[2], kind)
+    if kind in 'gp':
+        return real.access_next(op[1], op[2], kind)
     if kind == 'C':
         return real.close(op[1])
     if kind == 'O':
@@ -294,6 +303,12 @@ def _candidate_ops(cfg, model):
         for rec in range(1, R + 2):
             ops.append(('G', n, rec))
             ops.append(('P', n, rec))
+        if cfg[0] == 'basic':
+            # the same records reached without a record number (the one after the record accessed last)
+            for rec in range(2, R + 2):
+                if not model.locked_by_other(n, rec - 1):
+                    ops.append(('g', n, rec))
+                    ops.append(('p', n, rec))
         ops.append(('C', n))
     return ops
 
@@ -361,9 +376,9 @@ def _check_op(real, model, op, viols):
                 viols.append(('unlock/inexact-range-accepted/%s' % rel,
                               'UNLOCK#%d %s succeeded although #%d does not hold exactly that range; held=%r' % (
                                   n, _fmt_rng(rng), n, model.key())))
-    elif kind in 'GP':
+    elif kind in 'GPgp':
         n, rec = op[1], op[2]
-        word = 'get' if kind == 'G' else 'put'
+        word = {'G': 'get', 'P': 'put', 'g': 'get-next', 'p': 'put-next'}[kind]
         lockers = sorted(model.locked_by_other(n, rec))
         own = any(overlaps((rec, rec), r) for r in model.held[n])
         if lockers:
